@@ -213,7 +213,7 @@ def apply (m : MList) : Act → MList
                  dirty := m.dirty || seg.any m.isSec }
   | .setCursor none => { m with cursor := none }
   | .setCursor (some c) => if m.active c then { m with cursor := some c } else m
-  | .regSection n => { m with secNodes := n :: m.secNodes }
+  | .regSection n => if m.active n then m else { m with secNodes := n :: m.secNodes }   -- the node is new: never linked yet
   | .section n =>
       if !m.active n then
         -- add_after(node, last_node()); _cursor = node      (fixes/C08-4: an empty list gets the node as its only element)
